@@ -123,6 +123,13 @@ def owner(rej, group=None, evs=()):
             # completed (or pending with another outcome): a routing matter as much as a shutdown matter
             return ("C03", "C09"), "unmatched:FeDone:restart-notPending"
         return "C09", "unmatched:FeDone:" + k
+    if ev == "OnDisconnect":
+        res = e.get("res", {})
+        why = res.get("cause") if res.get("k") == "restart" else res.get("k", "?")
+        if why == "notPending":
+            # (as for FeDone: seen first by the driver's own look at the connection)
+            return ("C03", "C09"), "unmatched:OnDisconnect:restart-notPending"
+        return "C09", "unmatched:OnDisconnect:%s" % why
     if ev == "WireOut":
         k = e.get("k")
         return {"unsub": "C05", "batch": "C12"}.get(k, "C03"), "unmatched:WireOut:" + str(k)
